@@ -1,4 +1,5 @@
 import RdfModel.Props.C12
+import RdfModel.Props.C12Facts
 #print axioms RdfModel.C12.recompose_split
 #print axioms RdfModel.C12.resolve_abs_nodots
 #print axioms RdfModel.C12.rds_fixes_dot_free
@@ -12,3 +13,7 @@ import RdfModel.Props.C12
 #print axioms RdfModel.C12.not_ResolvePathEqRfc
 #print axioms RdfModel.C12.reclassify_drops_leading_slash
 #print axioms RdfModel.C12.reclassify_special
+#print axioms RdfModel.C12.gen_reclassify_guard
+#print axioms RdfModel.C12.gen_hierarchical_schemes
+#print axioms RdfModel.C12.gen_force_fragment
+#print axioms RdfModel.C12.gen_resolvePath_literals
